@@ -55,3 +55,45 @@ def run_xfer(ctx, exe, name, cases, timeout=1500):
 
 def strip(c):
     return {a: b for a, b in c.items() if not a.startswith("_")}
+
+
+def big_cases(rng, thorough=False):
+    """sparse files above 4 GiB, resumed so that only chunks whose indices / offsets lie beyond 2^32 bytes travel"""
+    G4 = 1 << 32
+    M = 1 << 20
+    cases = [
+        {"mode": "big", "name": "big-4GiB+-8MiB", "size": G4 + 4 * M + 5, "chunk": 8 * M, "data": [0, 255, 511, 512], "need": [511, 512], "streams": 2},
+        {"mode": "big", "name": "big-4GiB+-1MiB", "size": G4 + 3 * M + 1, "chunk": M, "data": [0, 1, 4095, 4096, 4098], "need": [4095, 4096, 4098], "streams": 4},
+    ]
+    for i in range(6 if thorough else 1):
+        chunk = rng.choice([M, 2 * M, 4 * M, 16 * M])
+        size = G4 * rng.range(1, 3) + rng.range(1, 64) * M + rng.range(0, 999)
+        total = (size + chunk - 1) // chunk
+        first_hi = (G4 + chunk - 1) // chunk
+        need = sorted({total - 1, first_hi, rng.range(first_hi, total - 1), rng.range(0, first_hi - 1)})
+        data = sorted(set(need) | {0, rng.range(0, total - 1)})
+        cases.append({"mode": "big", "name": f"big-rand-{i}", "size": size, "chunk": chunk, "data": data, "need": need, "streams": rng.range(1, 4)})
+    return cases
+
+
+def judge_big(ctx, prop, cases, results):
+    """shared by C01 (tree), C05 (sidecar claims), C19 (offsets beyond 2^32 on both sides)"""
+    n = 0
+    for c, r in zip(cases, results):
+        rep = {"case": c, "result": r}
+        if r.get("note"):
+            ctx.oblige(f"run:{c['name']}", False, r["note"][:200])
+            continue
+        n += 1
+        diff = r.get("diff") or []
+        claims = [d for d in diff if d.startswith("sidecar-claims-bad-chunk")]
+        bytes_ = [d for d in diff if not d.startswith("sidecar-claims-bad-chunk")]
+        if prop == "C05" and claims:
+            ctx.violation("C05:unsound-sidecar:above-4GiB", f"{c['name']} ({c['size']} bytes, chunk {c['chunk']}): the on-disk resume metadata claims chunks whose bytes differ from the source: {claims[:4]}", rep)
+        if prop == "C19" and bytes_ and r.get("sender_ok") and r.get("recv_ok"):
+            ctx.violation("C19:offset-above-4GiB", f"{c['name']} ({c['size']} bytes, chunk {c['chunk']}): chunks beyond 2^32 bytes were not written where the sender read them: {bytes_[:4]}", rep)
+        if prop == "C01" and bytes_ and r.get("sender_ok") and r.get("recv_ok"):
+            ctx.violation("C01:tree-differs:above-4GiB", f"{c['name']}: both endpoints reported success but the file differs: {bytes_[:4]}", rep)
+        if prop in ("C01", "C19") and (r.get("hang") or not (r.get("sender_ok") and r.get("recv_ok"))):
+            ctx.violation(f"{prop}:big-file-fails", f"{c['name']}: resumed transfer of a {c['size']}-byte file failed: sender={r.get('sender_err')!r} receiver={r.get('recv_err')!r} {r.get('hang', '')}", rep)
+    return n
